@@ -161,6 +161,15 @@ def check_sets(world, pipe, res, balanced_consumers=()):
                 if want == set(frames):
                     ok = True
                     break
+            if not ok and cand and not e['eph']:
+                # cut short by ANOTHER incarnation of a restarted publisher that reused the id: its topics message lists exactly what was delivered
+                incs = {p_[0] for p_ in cand}
+                mids = {p_[1] for p_ in cand}
+                for (n2, inc2, mid2, sock2), tops2 in pubidx.topics_of.items():
+                    if n2 == e['pub'] and mid2 in mids and inc2 not in incs and allowed_dst_topics(e, tops2) == set(frames):
+                        out.append(('set-mixes-publisher-incarnations', f'{cons}: frames of {e["pub"]} incarnation {sorted(incs)} under message id {sorted(mids)} were handed over as the complete set {sorted(frames)} although that incarnation published {sorted(want) if want is not None else "?"}: incarnation {inc2} reused the id and its topics message cut the stale set short: {brief(ins)}'))
+                        ok = True
+                        break
             if not ok and cand and not any(m == 'set-mixes-publisher-incarnations' for m, _ in out[-3:]):
                 out.append(('partial-set' if not e['eph'] else 'partial-ephemeral-set',
                             f'{cons}: from {e["pub"]} got topics {sorted(frames)} but the subscription covers {sorted(want) if want is not None else "?"} of that id: {brief(ins)}'))
